@@ -692,28 +692,36 @@ def evaluate2_old(cases):
     return [(i, project2(c, s)) for c, i, s in zip(cases, impl, vals)]
 
 
+LAST_FRAG2 = []
+LAST_UNSETTLED2 = []
+
+
 def evaluate2(cases, model_ok=True):
     """two-variable cases: implementation, two-variable model (RuleEval2.v) and Spec (RuleSpec2.v); returns [(impl, model or None, spec instances)]"""
     from . import core
     if not cases:
         return []
     impl = run_impl_bulk(cases)
+    del LAST_FRAG2[:]
+    del LAST_UNSETTLED2[:]
     exprs = []
     for c in cases:
         pt, st = rule_term2(c["prog"]), sels_term(c)
         ct, bt = world2_terms(c)
         if model_ok:
-            exprs += [f"model2_sx {pt} {st} {ct} {bt}", f"spec2_sx {pt} {st} {ct} {bt}"]
+            exprs += [f"model2_sx {pt} {st} {ct} {bt}", f"spec2_sx {pt} {st} {ct} {bt}", f"frag2_sx {pt} {st} {ct} {bt}"]
         else:
             exprs += [f"spec2_sx {pt} {st} {ct} {bt}"]
     vals = core.coq_values(PROP, HEADER2 if model_ok else HEADER2_SPEC, exprs, chunk=240, tag=f"valstwo{os.getpid()}")
     out = []
     for j, c in enumerate(cases):
         if model_ok:
-            m, sp = vals[2 * j], vals[2 * j + 1]
+            m, sp, fr = vals[3 * j], vals[3 * j + 1], vals[3 * j + 2]
         else:
-            m, sp = None, vals[j]
+            m, sp, fr = None, vals[j], None
         want = sorted(list(x) for x in {tuple(r) for r in sp})
+        LAST_FRAG2.append(bool(fr and fr[0] == 1 and fr[1] == 1))       # inside the fragment of C08_rules2
+        LAST_UNSETTLED2.append(bool(fr and fr[2] == 1))                 # next_rule in the level of a later sibling refinement
         out.append((impl[j], m, want))
     return out
 
@@ -819,6 +827,14 @@ def run(tier: str, seed: int, replay=None) -> int:
         for _ in range(1200 if tier == "quick" else 10000):
             cases2.append(gen_case2(rng3))
             origin2.append("random-two-variable")
+        rng4 = core.Rng(seed).fork(29)
+        n_next2 = 0
+        while n_next2 < (200 if tier == "quick" else 2500):      # with next_rule: outside C08_rules2, model + Spec
+            c2 = gen_case2(rng4, allow_next=True)
+            if "N" in sig_of(c2["prog"]):
+                cases2.append(c2)
+                origin2.append("random-two-variable-next")
+                n_next2 += 1
         rng = core.Rng(seed).fork(8)
         n_random = 1500 if tier == "quick" else 24000
         for _ in range(n_random):
@@ -910,10 +926,13 @@ def run(tier: str, seed: int, replay=None) -> int:
         rep.oblige("correspondence:evaluate-two-variable", False, str(e)[:600])
         results2 = []
     dist2 = {"cases": len(results2), "refinement_in_refinement": 0, "shared_body": 0, "concl_b_only": 0, "concl_c_and_b": 0,
-             "nonempty_spec": 0, "agree": 0}
+             "nonempty_spec": 0, "agree": 0, "in_fragment_of_C08_rules2": 0, "with_next_rule": 0,
+             "unsettled_reading": 0, "unsettled_impl_equals_model": 0, "unsettled_impl_equals_spec": 0}
     inst2 = 0
     model2_bad = []
-    for c, org, (impl, m2, want) in zip(cases2, origin2, results2):
+    dist2["in_fragment_of_C08_rules2"] = sum(1 for x in LAST_FRAG2 if x)
+    uns2 = list(LAST_UNSETTLED2) + [False] * len(results2)
+    for j2, (c, org, (impl, m2, want)) in enumerate(zip(cases2, origin2, results2)):
         rep.count("two:" + json.dumps(c, sort_keys=True), bool(want))
         sg = sig_of(c["prog"])
         dist2["refinement_in_refinement"] += 1 if "R{R" in sg or "{R{" in sg else 0
@@ -923,6 +942,16 @@ def run(tier: str, seed: int, replay=None) -> int:
         dist2["concl_b_only"] += 1 if '"sel": 1' in txt else 0
         dist2["concl_c_and_b"] += 1 if '"sel": 2' in txt else 0
         dist2["nonempty_spec"] += 1 if want else 0
+        dist2["with_next_rule"] += 1 if "N" in sg else 0
+        if uns2[j2]:
+            # reading not settled by the property text (as in the one-variable stream): model only, never an alarm
+            dist2["unsettled_reading"] += 1
+            m_ok2 = m2 is not None and model2_matches(c, impl, m2)
+            dist2["unsettled_impl_equals_model"] += 1 if m_ok2 else 0
+            dist2["unsettled_impl_equals_spec"] += 1 if spec2_matches(impl, want) else 0
+            if m2 is not None and not m_ok2:
+                rep.note(f"unsettled-reading class (two variables): implementation differs from the model on {sg!r} (not an alarm)")
+            continue
         if spec2_matches(impl, want):
             dist2["agree"] += 1
             if m2 is not None and not model2_matches(c, impl, m2):
@@ -935,6 +964,9 @@ def run(tier: str, seed: int, replay=None) -> int:
     if model_ok:
         rep.oblige("correspondence:model-two-variable", not model2_bad,
                    "" if not model2_bad else f"{len(model2_bad)} two-variable cases where impl=spec but the model differs, e.g. {json.dumps(model2_bad[0][0])}")
+        if replay is None:
+            rep.oblige("coverage:two-variable-fragment", dist2["in_fragment_of_C08_rules2"] * 2 >= len(results2) - dist2["with_next_rule"],
+                       f"{dist2['in_fragment_of_C08_rules2']} of {len(results2)} two-variable cases are inside the fragment of C08_rules2")
     rep.extra["two_variable_stream"] = dist2
     inst["K_dedup2"] = inst2
 
